@@ -1,21 +1,16 @@
-------------------------------- MODULE Equiv2 -------------------------------
+-------------------------------- MODULE Equiv --------------------------------
 (***************************************************************************)
-(* Two IC10 programs (A = reference, B = candidate) run against one shared *)
-(* device environment; the property is that they produce the same sequence *)
-(* of externally visible effects for every environment.                    *)
+(* C01: the source program (machine A, PySrc.tla) and the IC10 text the    *)
+(* real compiler emitted for it (machine B, IC10Core.tla) run against one  *)
+(* shared, lazily chosen device environment and must produce the same      *)
+(* sequence of externally visible effects, for every environment.          *)
 (*                                                                         *)
-(* Scheduling: A runs until it emits an effect (which becomes `pend`),     *)
-(* then B runs until it emits; the two effects must be equal; the memo of  *)
-(* device reads is cleared (a new epoch: devices may have changed) and A   *)
-(* runs again.  Between two effects each machine is deterministic given    *)
-(* env, so a silent endless loop is detected exactly (Brent checkpoints:   *)
-(* ck, ckn, ckp) and recorded in da / db.                                  *)
-(*                                                                         *)
-(* Many cases are checked in one TLC run: tid selects the case.  A         *)
-(* violation moves the state to a canonical sink <<tid, verdict>> so that  *)
-(* TLC's own de-duplication yields one report per (case, verdict).         *)
+(* Scheduling, epochs, Brent divergence detection, batch verdicts: exactly *)
+(* as in Equiv2.tla (A runs to its next effect, then B; equal effects end  *)
+(* the epoch).  Additional verdict: KEEPS_RUNNING - the source has         *)
+(* finished and the chip provably loops forever (C07).                     *)
 (***************************************************************************)
-EXTENDS IC10Core, Json
+EXTENDS PySrc, Json
 
 Cases == JsonDeserialize("cases.json")
 
@@ -23,31 +18,28 @@ VARIABLES tid, verdict, a, b, env, pend, n, da, db, ck, ckn, ckp
 vars == <<tid, verdict, a, b, env, pend, n, da, db, ck, ckn, ckp>>
 
 J == Cases[tid]
-PA == J.pa
+AST == J.ast
 PB == J.pb
 Dom == {J.dom[k] : k \in 1..Len(J.dom)}
-MaxN == J.maxn          \* 0: no effect counter (states merge; bounded by MaxLevel)
+MaxN == J.maxn
 Fuel == J.fuel
-MaxLevel == J.maxlevel
 
 Init == /\ tid \in 1..Len(Cases) /\ verdict = ""
-        /\ a = NewMachineN(IF "nrega" \in DOMAIN Cases[tid] THEN Cases[tid].nrega ELSE 17)
-        /\ b = NewMachine /\ env = <<>> /\ pend = NoEff /\ n = 0
+        /\ a = NewSrc(Cases[tid].ast) /\ b = NewMachine /\ env = <<>> /\ pend = NoEff /\ n = 0
         /\ da = FALSE /\ db = FALSE /\ ck = <<>> /\ ckn = 0 /\ ckp = 1
 
 QuietA == a.st # "run" \/ da
 QuietB == b.st # "run" \/ db
-LevelOK == MaxLevel = 0 \/ TLCGet("level") < MaxLevel
-Budget == (MaxN = 0 \/ n < MaxN) /\ LevelOK
+Budget == MaxN = 0 \/ n < MaxN
 \* once a machine is in an error state the case is judged, nothing runs any more
 NoErr == a.st # "err" /\ b.st # "err"
 ATurn == pend = NoEff /\ ~QuietA /\ Budget /\ NoErr
 BTurn == ~ATurn /\ ~QuietB /\ Budget /\ (pend # NoEff \/ QuietA) /\ NoErr
 
-Sink(v) == /\ verdict' = v /\ tid' = tid /\ a' = NewMachine /\ b' = NewMachine /\ env' = <<>>
+Sink(v) == /\ verdict' = v /\ tid' = tid /\ a' = [k |-> <<>>, g |-> NoVars, locs |-> <<>>, mem |-> <<>>, st |-> "halt", why |-> ""]
+           /\ b' = NewMachine /\ env' = <<>>
            /\ pend' = NoEff /\ n' = 0 /\ da' = FALSE /\ db' = FALSE /\ ck' = <<>> /\ ckn' = 0 /\ ckp' = 1
 
-\* the differing positions of two effects of the same kind all involve a symbolic value
 DiffSym(e, f) == e[1] = f[1] /\ \A k \in 2..6 : e[k] = f[k] \/ IsSym(e[k]) \/ IsSym(f[k])
 
 Snap == IF ATurn THEN <<"a", a, env>> ELSE <<"b", b, env>>
@@ -55,11 +47,14 @@ BrentReset == ck' = <<>> /\ ckn' = 0 /\ ckp' = 1
 BrentTick == IF ckn + 1 = ckp THEN ck' = Snap /\ ckn' = 0 /\ ckp' = 2 * ckp
              ELSE ck' = ck /\ ckn' = ckn + 1 /\ ckp' = ckp
 
-Inconclusive(why) == why \in {"SYMBOLIC_BRANCH", "UNRESOLVED_OPERAND", "UNSUPPORTED_INSTRUCTION"}
+InconclusiveB(why) == why \in {"SYMBOLIC_BRANCH", "UNRESOLVED_OPERAND", "UNSUPPORTED_INSTRUCTION"}
+\* situations the dialect gives no meaning to (the generators stay away from them)
+InconclusiveA(why) == why \in {"SYMBOLIC_BRANCH", "UNBOUND_NAME", "LIST_INDEX_OUTSIDE", "RANGE_STEP_ZERO", "CALL_DEPTH",
+                               "UNSUPPORTED_NODE", "STACK_RANGE"}
 
 StepA ==
   /\ verdict = "" /\ ATurn /\ Snap # ck /\ ckp <= Fuel
-  /\ \E r \in IcSuccMon(PA, a, env, Dom) :
+  /\ \E r \in SrcSucc(AST, a, env, Dom) :
        /\ a' = r.m /\ env' = r.env /\ pend' = r.eff
        /\ IF r.eff # NoEff THEN BrentReset ELSE BrentTick
   /\ UNCHANGED <<tid, verdict, b, n, da, db>>
@@ -75,7 +70,7 @@ StepB ==
        IF r.eff = NoEff THEN
             /\ b' = r.m /\ env' = r.env /\ BrentTick
             /\ UNCHANGED <<tid, verdict, a, pend, n, da, db>>
-       ELSE IF pend = NoEff THEN Sink("EXTRA_EFFECT_B")
+       ELSE IF pend = NoEff THEN Sink(IF a.st = "halt" THEN "EFFECT_AFTER_SOURCE_ENDED" ELSE "EXTRA_EFFECT_B")
        ELSE IF r.eff = pend THEN
             /\ b' = r.m /\ env' = ClearEpoch(r.env) /\ pend' = NoEff
             /\ n' = (IF MaxN = 0 THEN 0 ELSE n + 1) /\ BrentReset
@@ -90,13 +85,13 @@ DivergeB ==
 
 Judge ==
   /\ verdict = ""
-  /\ \/ a.st = "err" /\ Sink((IF Inconclusive(a.why) THEN "INCONCLUSIVE:A:" ELSE "FAULT_A:") \o a.why)
-     \/ b.st = "err" /\ Sink((IF Inconclusive(b.why) THEN "INCONCLUSIVE:B:" ELSE "FAULT_B:") \o b.why)
-     \/ a.mv # "" /\ Sink("MON_A:" \o a.mv)
+  /\ \/ a.st = "err" /\ Sink((IF InconclusiveA(a.why) THEN "INCONCLUSIVE:A:" ELSE "FAULT_A:") \o a.why)
+     \/ b.st = "err" /\ Sink((IF InconclusiveB(b.why) THEN "INCONCLUSIVE:B:" ELSE IF a.st = "halt" /\ pend = NoEff THEN "FAULT_AFTER_SOURCE_ENDED:" ELSE "FAULT_B:") \o b.why)
      \/ b.mv # "" /\ Sink("MON_B:" \o b.mv)
      \/ a.st # "err" /\ b.st # "err" /\ pend # NoEff /\ QuietB /\ Sink("MISSING_EFFECT_B")
+     \/ a.st = "halt" /\ pend = NoEff /\ db /\ Sink("KEEPS_RUNNING")
+     \/ da /\ pend = NoEff /\ b.st = "halt" /\ Sink("STOPS_WHILE_SOURCE_LOOPS")
      \/ (ATurn \/ BTurn) /\ Snap # ck /\ ckp > Fuel /\ Sink("INCONCLUSIVE:FUEL")
-     \/ ~LevelOK /\ (~QuietA \/ ~QuietB) /\ Sink("INCONCLUSIVE:DEPTH")
 
 Report ==
   /\ verdict # "" /\ verdict # "reported"
@@ -106,8 +101,5 @@ Report ==
 
 Next == StepA \/ DivergeA \/ StepB \/ DivergeB \/ Judge \/ Report
 Spec == Init /\ [][Next]_vars
-
-\* for single-case replays: TLC prints the behaviour that reaches the verdict
-NoViolation == verdict \notin {"EFFECT_MISMATCH", "EXTRA_EFFECT_B", "MISSING_EFFECT_B"}
 NoVerdict == verdict = ""
 =============================================================================
